@@ -180,10 +180,10 @@ func (ld *Loaded) findFunc(key string) *ssa.Function {
 
 func newExec(ld *Loaded) *Exec {
 	return &Exec{prog: ld.prog, fset: ld.fset, contracts: ld.cs, warnings: map[string]int{}, globals: map[*ssa.Global]*Obj{},
-		inlineMax: 14, maxStates: 60000, loopInfo: map[*ssa.Function]*LoopInfo{}, pureCache: map[*ssa.Function]*effectSummary{},
+		inlineMax: 14, maxStates: 12000, loopInfo: map[*ssa.Function]*LoopInfo{}, pureCache: map[*ssa.Function]*effectSummary{},
 		useContracts: true, noContractFor: map[string]bool{}, assumed: map[string]int{},
 		initDone: map[*ssa.Package]bool{}, inInit: map[*ssa.Package]bool{}, globalVals: map[*ssa.Global]*Term{}, initStates: map[*ssa.Package]*State{},
-		iterPrefix: map[string]*Term{}, arrayFam: map[string]int{}, wsCache: map[*ssa.Function]*WriteSet{}}
+		iterPrefix: map[string]*Term{}, arrayFam: map[string]int{}, wsCache: map[*ssa.Function]*WriteSet{}, joins: map[*ssa.Function]*joinInfo{}, noMerge: os.Getenv("ICSVC_NOMERGE") != ""}
 }
 
 // ---------------------------------------------------------------- property specs
@@ -276,6 +276,18 @@ func cmdDump(args []string) int {
 			fmt.Println("not found:", k)
 			continue
 		}
+		if os.Getenv("ICSVC_JOINS") != "" {
+			ji := computeJoins(fn)
+			for _, b := range fn.Blocks {
+				j := ji.ipdom[b]
+				if j != nil {
+					fmt.Printf("b%d -> ipdom b%d (succs %d)\n", b.Index, j.Index, len(b.Succs))
+				} else {
+					fmt.Printf("b%d -> none (succs %d)\n", b.Index, len(b.Succs))
+				}
+			}
+			continue
+		}
 		fn.WriteTo(os.Stdout)
 		for _, af := range fn.AnonFuncs {
 			af.WriteTo(os.Stdout)
@@ -362,6 +374,9 @@ func runCheck(o *checkOpts) int {
 		funcsUnder = append(funcsUnder, pf.Func)
 		ex := newExec(ld)
 		ex.trace = o.trace
+		if os.Getenv("ICSVC_DEBUG_FORKS") != "" {
+			ex.forkCount = map[string]int{}
+		}
 		rep := ex.verifyFunction(fn, ct, pf.Func)
 		for w, n := range rep.Warnings {
 			allWarnings[w] += n
